@@ -486,6 +486,12 @@ macro_rules! family {
                     }
                 }
                 let ctx = || format!("scale={:?} rotation={:?} translation={:?} source={}", s, qt, tr, src);
+                // A composition made by glam from a quaternion that is unit only to rounding is not exactly shear-free:
+                // the from_quat polynomial of q = (1 + e) q^ is R^ + 2e (R^ - I). With nu = | |q|^2 - 1 | the column norms
+                // are off by <= 2 nu relative and no (scale, rotation) pair reproduces the columns better than 2 nu;
+                // the tolerances of the self-produced source carry that term (twice the bound). nu is exact per case.
+                let nu = if src == 1 { qd[0].mul(qd[0]).add(qd[1].mul(qd[1])).add(qd[2].mul(qd[2])).add(qd[3].mul(qd[3])).sub(refm::ONE).abs().f() } else { 0.0 };
+                t.ratio("info:input-quaternion-norm-deviation nu/(16u)", nu / (16.0 * U));
                 let (sv, qv, tv) = ($V3::new(s[0], s[1], s[2]), $Q::from_xyzw(qt[0], qt[1], qt[2], qt[3]), $V3::new(tr[0], tr[1], tr[2]));
                 let mut c16 = [T::from_f64(0.0); 16];
                 let mut c12 = [T::from_f64(0.0); 12];
@@ -515,7 +521,9 @@ macro_rules! family {
                         // unit rotation
                         let r2d = q_of(&r2a);
                         let n = refm::qnorm(&r2d).sub(refm::ONE).abs().f();
-                        let tol = 8.0 * U;
+                        // the axes handed to the matrix -> quaternion conversion are columns * 1/|column|: norm (2.5u), reciprocal (u),
+                        // product (u) = 4.5u relative, which |q| inherits; tolerance twice that, rounded up
+                        let tol = 10.0 * U;
                         if !(n <= tol) {
                             return Err(fail($ty, op, format!("rotation is not unit: | |q| - 1 | = {:.3e} > {:.3e}; {}", n, tol, ctx2())));
                         }
@@ -533,7 +541,7 @@ macro_rules! family {
                             // against the scale the transform was composed from: the column carries up to (K_C3 + 1) u more
                             let so = s[c].to_f64().abs();
                             let e = (s2a[c].to_f64().abs() - so).abs() / so;
-                            let tol = (K_S + K_C3 + 2.0) * U;
+                            let tol = (K_S + K_C3 + 2.0) * U + 4.0 * nu;
                             if !(e <= tol) {
                                 return Err(fail($ty, op, format!("|scale[{c}]| = {:e} differs from the composed |scale| {:e} by {:.3e} relative > {:.3e}; {}", s2a[c].to_f64().abs(), so, e, tol, ctx2())));
                             }
@@ -548,14 +556,23 @@ macro_rules! family {
                         if !signs_ok {
                             return Err(fail($ty, op, format!("sign rule violated: det = {:e}, expected {} x scale and positive y, z scales; {}", det, if neg { "a negative" } else { "a positive" }, ctx2())));
                         }
-                        // recomposition with the reference: T(t') * R(r') * S(s') reproduces the matrix, per column norm
-                        let (em, _) = trs_block(&r2d, &s2a);
+                        // recomposition with the reference: T(t') * R(r') * S(s') reproduces the matrix, per column norm.
+                        // R(r') is the rotation of r' (normalised: its unit length is checked above, and the from_quat
+                        // polynomial would turn a deviation nu' of |r'|^2 from 1 into a 2 nu' column error of its own).
+                        let rr = refm::q_to_m3(&r2d);
+                        let mut em = rr;
+                        for r in 0..3 {
+                            for c in 0..3 {
+                                em[r][c] = rr[r][c].mul(dd(s2a[c].to_f64()));
+                            }
+                        }
+                        let nu2 = r2d[0].mul(r2d[0]).add(r2d[1].mul(r2d[1])).add(r2d[2].mul(r2d[2])).add(r2d[3].mul(r2d[3])).sub(refm::ONE).abs().f();
                         for c in 0..3 {
                             let mut e = 0.0f64;
                             for r in 0..3 {
                                 e = e.max(dd(g.b[r][c]).sub(em[r][c]).abs().f());
                             }
-                            let tol = K_R * U * cn[c];
+                            let tol = (K_R * U + 4.0 * nu) * cn[c];
                             if !(e <= tol) {
                                 return Err(fail($ty, op, format!("recomposing (scale, rotation, translation) misses column {c} of the matrix by {:.3e} > {:.3e} (= {} u x column norm {:.3e}); {}", e, tol, K_R, cn[c], ctx2())));
                             }
@@ -569,7 +586,7 @@ macro_rules! family {
                             for r in 0..3 {
                                 e = e.max((back.b[r][c] - g.b[r][c]).abs());
                             }
-                            let tol = (K_R + K_C3) * U * cn[c];
+                            let tol = ((K_R + K_C3) * U + 4.0 * nu + 4.0 * nu2) * cn[c];
                             if !(e <= tol) {
                                 return Err(fail($ty, "from_scale_rotation_translation(to_scale_rotation_translation)", format!("round trip misses column {c} by {:.3e} > {:.3e}; {}", e, tol, ctx2())));
                             }
